@@ -457,6 +457,9 @@ def run(ck):
     with attach.observe(on_log=on_log) as st:
         for dt_ in (torch.float64, torch.float32):
             attach.realistic_workloads(ck.rng("attached"), dt_, steps=10 if ck.tier == "thorough" else 6)
+    if ck.shard == ck.nshards - 1:
+        attach.run_repository_tests(ck, ["log"])        # the repository's own tests, Log monitor attached
+        ck.require("suite/ran_under_monitors")
     ck.note_add("attached_log_calls", st["log_calls"])
     ck.floor("log_attached", 50)
     ck.floor("log_expm", 1000)
